@@ -49,8 +49,19 @@ CLAIMS = {
              "that none of the installed solvers discharges (DESIGN 2.9); daemon histories (restart, ALRM, expiry) are covered "
              "only through the per-function proofs listed in evidence.",
         design_ref="DESIGN.md section 5 C15"),
+    "C09": dict(
+        text="Proof (CBMC loop contract on the unmodified qmail-remote.c smtp()/quit()): for every sequence of reply codes and "
+             "any number of recipients, K is reported only after greeting 220, HELO 250, MAIL < 400, some RCPT < 400, DATA "
+             "< 400 and a final reply < 400; 5xx at MAIL/DATA/final dot gives D, 4xx or a wrong greeting/HELO gives Z; one "
+             "r/s/h record per recipient in argument order; the critical (possible duplicate) flag is raised from before the "
+             "final dot until the reply was read (with remote_blast). qmail-rspawn report(): every wait status (complete) and, "
+             "as a bounded stand-in, every qmail-remote output of <= 8 bytes: success is never relayed unless the first "
+             "verdict record says K and the recipient record is neither s nor h.",
+        note="smtpcode() is an arbitrary-code stub in the smtp() proof; connect/DNS phase of main and timeouts (dropped) "
+             "are not covered beyond the flag.",
+        design_ref="DESIGN.md section 5 C09"),
 }
 
 NOT_APPLICABLE = {p: PENDING for p in
-                  ["C01", "C02", "C03", "C04", "C08", "C09", "C10", "C11", "C12", "C13", "C14",
+                  ["C01", "C02", "C03", "C04", "C08", "C10", "C11", "C12", "C13", "C14",
                    "C16", "C17", "C19", "C20"]}
